@@ -7,30 +7,34 @@ static struct { uint8_t mode, lss_conf, emcy0, stopped; uint8_t p8; } M;
 
 static const uint8_t CS[] = { 1, 2, 128, 129, 130, 0, 3, 127, 255 };
 enum { E_NMT0 = 0, E_SETMODE0 = 27, E_START = 30, E_RESET_NODE, E_RESET_COM, E_STOPNODE, E_P_SDO, E_P_RPDO, E_P_SYNC, E_P_HBMON, E_P_HBFOREIGN,
-       E_P_LSS_CONF, E_P_LSS_WAIT, E_P_LSS_INQ, E_P_FOREIGN, E_P_OWN_SDO, E_P_OWN_HB, E_P_OWN_PDO, E_EMCY_SET, E_EMCY_CLR, E_TRIG, E_TICK, E_N };
+       E_P_LSS_CONF, E_P_LSS_WAIT, E_P_LSS_INQ, E_P_FOREIGN, E_P_OWN_SDO, E_P_OWN_HB, E_P_OWN_PDO, E_EMCY_SET, E_EMCY_CLR, E_TRIG, E_TICK, E_TRIG2, E_N };
 static uint8_t NID;
 
-static const char *cfg_name(int c) { return c == 0 ? "node 1 started" : c == 1 ? "node 1 in INIT" : c == 2 ? "node 5 started" : "node 127 started"; }
+static int TT;   /* cfg 4: timer-driven TPDO instead of the heartbeat services */
+static const char *cfg_name(int c) { return c == 0 ? "node 1 started" : c == 1 ? "node 1 in INIT" : c == 2 ? "node 5 started" : c == 3 ? "node 127 started" : "node 1 started, timer-driven TPDO"; }
 
 static int build(int cfg)
 {
     nc_defaults();
     NC.node_id = cfg == 2 ? 5 : cfg == 3 ? 127 : 1; NID = NC.node_id;
     NC.no_start = (cfg == 1);
-    NC.hbprod = 1; NC.hb_time = 2;
-    NC.n_hbc = 1; NC.hbc[0].node = 9; NC.hbc[0].time = 3;
+    TT = (cfg == 4);
+    if (!TT) { NC.hbprod = 1; NC.hb_time = 2; NC.n_hbc = 1; NC.hbc[0].node = 9; NC.hbc[0].time = 3; }
     NC.sync = 1; NC.sync_id = 0x80; NC.sync_cycle = 0;
     NC.emcy = 1; NC.emcy_id = 0x80 + NID; NC.hist = 2;
     NC.n_rpdo = 1; NC.rpdo[0].present = 1; NC.rpdo[0].cobid = 0x200 + NID; NC.rpdo[0].type = 255; NC.rpdo[0].nmap = 1; NC.rpdo[0].map[0] = NC_MAP(0x2110, 0, 8);
-    NC.n_tpdo = 2;
+    NC.n_tpdo = TT ? 3 : 2;
     NC.tpdo[0].present = 1; NC.tpdo[0].cobid = 0x40000180u + NID; NC.tpdo[0].type = 254; NC.tpdo[0].nmap = 1; NC.tpdo[0].map[0] = NC_MAP(0x2100, 0, 8);
     NC.tpdo[1].present = 1; NC.tpdo[1].cobid = 0x40000280u + NID; NC.tpdo[1].type = 1;   NC.tpdo[1].nmap = 1; NC.tpdo[1].map[0] = NC_MAP(0x2111, 0, 16);
+    /* a TPDO that lives on timers (event time 3 ticks, inhibit time 2 ticks): the timers keep running when the node leaves
+     * OPERATIONAL, so the gating must hold inside the transmit path itself; exact timing is C12's business */
+    if (TT) NC.tpdo[2].present = 1; NC.tpdo[2].cobid = 0x40000380u + NID; NC.tpdo[2].type = 254; NC.tpdo[2].event = 3; NC.tpdo[2].inhibit = 20; NC.tpdo[2].nmap = 1; NC.tpdo[2].map[0] = NC_MAP(0x2100, 0, 8);
     nc_build();
     (void)CONodeGetErr(&Node);
     memset(&M, 0, sizeof M);
     M.mode = NC.no_start ? M_INIT : M_PREOP; M.p8 = P8;
     W_REG(M);
-    return E_N;
+    return TT ? E_N : E_N - 1;
 }
 
 static const char *ev_name(int e)
@@ -38,7 +42,7 @@ static const char *ev_name(int e)
     static char b[64];
     static const char *const N[] = { "CONodeStart", "CONmtReset(node)", "CONmtReset(com)", "CONodeStop", "probe:SDO upload 1000h", "probe:RPDO frame", "probe:SYNC", "probe:heartbeat of monitored node",
         "probe:heartbeat of unmonitored node", "probe:LSS switch global(configuration)", "probe:LSS switch global(waiting)", "probe:LSS inquire node-id", "probe:foreign identifier 123h",
-        "probe:own SDO response id", "probe:own heartbeat id", "probe:own TPDO id", "COEmcySet(0)", "COEmcyClr(0)", "COTPdoTrigPdo(0)", "tick" };
+        "probe:own SDO response id", "probe:own heartbeat id", "probe:own TPDO id", "COEmcySet(0)", "COEmcyClr(0)", "COTPdoTrigPdo(0)", "tick", "COTPdoTrigPdo(2) (timer-driven TPDO)" };
     if (e < E_SETMODE0) { int t = e % 3; snprintf(b, sizeof b, "NMT cs=%d target=%s", CS[e / 3], t == 0 ? "own" : t == 1 ? "0(all)" : "other"); }
     else if (e < E_START) snprintf(b, sizeof b, "CONmtSetMode(%s)", e == E_SETMODE0 ? "PREOP" : e == E_SETMODE0 + 1 ? "OPERATIONAL" : "STOP");
     else snprintf(b, sizeof b, "%s", N[e - E_START]);
@@ -103,7 +107,7 @@ static int step(int e)
         if (M.mode == M_INIT || M.mode == M_STOP) unclaimed();
         w_rx(&Node, 0x80, 0, d); break;
     case E_P_HBMON:
-        if (M.mode == M_INIT) unclaimed();
+        if (M.mode == M_INIT || TT) unclaimed();
         X.free_cb = 1;
         d[0] = 5; w_rx(&Node, 0x709, 1, d); break;
     case E_P_HBFOREIGN: unclaimed(); d[0] = 5; w_rx(&Node, 0x708, 1, d); break;
@@ -118,6 +122,7 @@ static int step(int e)
     case E_EMCY_CLR: if (M.emcy0)  { M.emcy0 = 0; if (M.mode == M_PREOP || M.mode == M_OP) X.n_emcy = 1; } COEmcyClr(&Node.Emcy, 0); break;
     case E_TRIG: if (M.mode == M_OP) X.n_tpdo0 = 1; COTPdoTrigPdo(Node.TPdo, 0); break;
     case E_TICK: X.hb_max = 1; X.free_cb = 1; w_tick(&Node, 1); break;
+    case E_TRIG2: if (!TT) return MC_SKIP; COTPdoTrigPdo(Node.TPdo, 2); break;
     default: break;
     }
     (void)CONodeGetErr(&Node);
@@ -145,6 +150,7 @@ static int step(int e)
                 if (e == E_TICK) { hb++; if (f->dlc != 1 || f->d[0] != CODE[M.mode] || M.mode == M_INIT) { mc_fail("nmt-heartbeat-content", "heartbeat frame carries %02X in mode %d", f->d[0], M.mode); return MC_OK; } }
                 else { boot++; if (f->dlc != 1 || f->d[0] != 0) { mc_fail("nmt-bootup-content", "boot-up frame has DLC %d data %02X", f->dlc, f->d[0]); return MC_OK; } }
             }
+            else if (f->id == 0x380u + NID) { if (M.mode != M_OP) { mc_fail("gating-pdo", "timer-driven TPDO transmitted in mode %d", M.mode); return MC_OK; } }
             else if (f->id == 0x580u + NID || f->id == 0x180u + NID || f->id == 0x280u + NID || f->id == 0x80u + NID || f->id == 0x7E4) { }
             else { mc_fail("nmt-unexpected-frame", "frame with identifier %03X sent", f->id); return MC_OK; }
         }
@@ -169,5 +175,5 @@ static int step(int e)
     return MC_OK;
 }
 
-static const mc_harness H = { "C09", "c09", 4, cfg_name, build, ev_name, step, 4, 30 };
+static const mc_harness H = { "C09", "c09", 5, cfg_name, build, ev_name, step, 4, 30 };
 int main(int argc, char **argv) { return mc_main(argc, argv, &H); }
